@@ -5,6 +5,166 @@ sample names, the contig dictionary and the string dictionary [PASS, GT], leavin
 import SfsModel.Spec.Container
 namespace Sfs
 
+/-! ## `splitBytes`, `splitLines` -/
+
+theorem splitBytes_ne_nil (c : Nat) (l : List Nat) : splitBytes c l ≠ [] := by
+  induction l with
+  | nil => simp [splitBytes]
+  | cons x xs ih =>
+    unfold splitBytes
+    split
+    · simp
+    · split <;> simp
+
+/-- a segment without the separator is one field -/
+theorem splitBytes_single (c : Nat) (x : List Nat) (h : c ∉ x) : splitBytes c x = [x] := by
+  induction x with
+  | nil => rfl
+  | cons a x ih =>
+    have ha : a ≠ c := fun e => h (by simp [e])
+    simp only [splitBytes, ih (fun hx => h (by simp [hx]))]
+    simp [ha]
+
+/-- a segment without the separator, then the separator: the segment is the first field -/
+theorem splitBytes_append_sep (c : Nat) (x rest : List Nat) (h : c ∉ x) :
+    splitBytes c (x ++ c :: rest) = x :: splitBytes c rest := by
+  induction x with
+  | nil =>
+    simp only [List.nil_append, splitBytes]
+    split
+    · rename_i h0; exact absurd h0 (splitBytes_ne_nil c rest)
+    · rename_i h0; simp [h0]
+  | cons a x ih =>
+    have ha : a ≠ c := fun e => h (by simp [e])
+    simp only [List.cons_append, splitBytes, ih (fun hx => h (by simp [hx]))]
+    simp [ha]
+
+theorem splitLines_nil : splitLines [] = [] := by decide
+
+/-- a line without `\n`, then `\n`: the line is the first line, whatever follows (also nothing) -/
+theorem splitLines_line (x rest : List Nat) (h : 10 ∉ x) : splitLines (x ++ 10 :: rest) = x :: splitLines rest := by
+  unfold splitLines
+  simp only [splitBytes_append_sep 10 x rest h]
+  obtain ⟨a, t, ht⟩ := List.exists_cons_of_ne_nil (splitBytes_ne_nil 10 rest)
+  rw [ht, List.getLast?_cons_cons]
+  split <;> simp [List.dropLast]
+
+/-- text made of `\n`-terminated lines splits into exactly these lines, and what follows starts a new line -/
+theorem splitLines_flatMap (ls : List (List Nat)) (h : ∀ l ∈ ls, 10 ∉ l) (rest : List Nat) :
+    splitLines (ls.flatMap (fun l => l ++ [10]) ++ rest) = ls ++ splitLines rest := by
+  induction ls with
+  | nil => simp
+  | cons l ls ih =>
+    have e : (l :: ls).flatMap (fun l => l ++ [10]) ++ rest = l ++ 10 :: (ls.flatMap (fun l => l ++ [10]) ++ rest) := by
+      simp [List.flatMap_cons]
+    rw [e, splitLines_line _ _ (h l (by simp)), ih (fun l' hl' => h l' (by simp [hl']))]
+    simp
+
+/-! ## strings and bytes -/
+
+theorem strBytes_append (a b : String) : strBytes (a ++ b) = strBytes a ++ strBytes b := by
+  simp [strBytes]
+
+theorem mem_strBytes {s : String} {b : Nat} : b ∈ strBytes s ↔ ∃ c ∈ s.toList, c.toNat = b := by
+  simp [strBytes]
+
+theorem asciiString_strBytes (s : String) (h : ∀ c ∈ s.toList, c.toNat < 128) : asciiString (strBytes s) = some s := by
+  unfold asciiString strBytes
+  have hall : (s.toList.map Char.toNat).all (· < 128) = true := by
+    simp only [List.all_map, List.all_eq_true, Function.comp, decide_eq_true_eq]
+    exact h
+  rw [if_pos hall]
+  have hm : (s.toList.map Char.toNat).map Char.ofNat = s.toList := by
+    rw [List.map_map]
+    conv => rhs; rw [← List.map_id s.toList]
+    apply List.map_congr_left
+    intro c _
+    simp [Char.ofNat_toNat]
+  rw [hm, String.ofList_toList]
+
+theorem strBytes_ne_nil {s : String} (h : s ≠ "") : strBytes s ≠ [] := by
+  intro e
+  apply h
+  have : s.toList = [] := by simpa [strBytes] using e
+  rw [← String.ofList_toList (s := s), this]
+
+/-- the byte range of a contig-name character -/
+theorem contigChar_range {c : Char} (h : c.isAlphanum = true ∨ c = '_' ∨ c = '.') :
+    (48 ≤ c.toNat ∧ c.toNat ≤ 57) ∨ (65 ≤ c.toNat ∧ c.toNat ≤ 90) ∨ (97 ≤ c.toNat ∧ c.toNat ≤ 122) ∨
+      c.toNat = 95 ∨ c.toNat = 46 := by
+  rcases h with h | rfl | rfl
+  · simp only [Char.isAlphanum, Char.isAlpha, Char.isUpper, Char.isLower, Char.isDigit, Bool.or_eq_true,
+      Bool.and_eq_true, decide_eq_true_eq, ge_iff_le] at h
+    rcases h with (⟨h1, h2⟩ | ⟨h1, h2⟩) | ⟨h1, h2⟩
+    · rw [UInt32.le_iff_toNat_le] at h1 h2
+      exact .inr (.inl ⟨h1, h2⟩)
+    · rw [UInt32.le_iff_toNat_le] at h1 h2
+      exact .inr (.inr (.inl ⟨h1, h2⟩))
+    · rw [UInt32.le_iff_toNat_le] at h1 h2
+      exact .inl ⟨h1, h2⟩
+  · decide
+  · decide
+
+theorem wfContig_bytes {s : String} (h : WfContig s) {b : Nat} (hb : b ∈ strBytes s) :
+    (48 ≤ b ∧ b ≤ 57) ∨ (65 ≤ b ∧ b ≤ 90) ∨ (97 ≤ b ∧ b ≤ 122) ∨ b = 95 ∨ b = 46 := by
+  obtain ⟨c, hc, rfl⟩ := mem_strBytes.1 hb
+  exact contigChar_range (h.2 c hc)
+
+theorem wfContig_ascii {s : String} (h : WfContig s) : asciiString (strBytes s) = some s := by
+  apply asciiString_strBytes
+  intro c hc
+  have := contigChar_range (h.2 c hc)
+  omega
+
+theorem wfName_ascii {s : String} (h : WfName s) : asciiString (strBytes s) = some s :=
+  asciiString_strBytes s (fun c hc => (h.2 c hc).1)
+
+theorem wfName_bytes {s : String} (h : WfName s) {b : Nat} (hb : b ∈ strBytes s) : b ≠ 9 ∧ b ≠ 10 ∧ b ≠ 13 := by
+  obtain ⟨c, hc, rfl⟩ := mem_strBytes.1 hb
+  obtain ⟨_, h1, h2, h3⟩ := h.2 c hc
+  refine ⟨?_, ?_, ?_⟩
+  · intro e; apply h1; apply Char.toNat_inj.1; rw [e]; rfl
+  · intro e; apply h2; apply Char.toNat_inj.1; rw [e]; rfl
+  · intro e; apply h3; apply Char.toNat_inj.1; rw [e]; rfl
+
+/-! ## `hasInfix` -/
+
+theorem hasInfix_false_of_not_mem (p l : List Nat) (x : Nat) (hx : x ∈ p) (hl : x ∉ l) : hasInfix p l = false := by
+  induction l with
+  | nil =>
+    cases p with
+    | nil => simp at hx
+    | cons a p => rfl
+  | cons a l ih =>
+    unfold hasInfix
+    rw [ih (fun h => hl (by simp [h]))]
+    rw [Bool.or_false]
+    cases hp : p.isPrefixOf (a :: l) with
+    | false => rfl
+    | true =>
+      exfalso
+      exact hl ((List.isPrefixOf_iff_prefix.1 hp).subset hx)
+
+/-! ## the header lines -/
+
+def contigLine (c : String) : List Nat := strBytes "##contig=<ID=" ++ strBytes c ++ [62]
+
+def formatLine : List Nat := strBytes "##FORMAT=<ID=GT,Number=1,Type=String,Description=\"Genotype\">"
+
+def chromLine (cols : List String) : List Nat := chromLinePrefix ++ joinTab (cols.map strBytes)
+
+def headerLines (cols contigs : List String) : List (List Nat) :=
+  strBytes "##fileformat=VCFv4.3" :: (contigs.map contigLine ++ [formatLine, chromLine cols])
+
+theorem headerText_eq_lines (cols contigs : List String) :
+    headerText cols contigs = (headerLines cols contigs).flatMap (fun l => l ++ [10]) := by
+  have e1 : strBytes "##fileformat=VCFv4.3\n" = strBytes "##fileformat=VCFv4.3" ++ [10] := by decide
+  have e2 : strBytes ">\n" = [62, 10] := by decide
+  have e3 : strBytes "##FORMAT=<ID=GT,Number=1,Type=String,Description=\"Genotype\">\n" = formatLine ++ [10] := by decide
+  unfold headerText headerLines
+  rw [e1, e2, e3]
+  simp [List.flatMap_cons, List.flatMap_append, List.flatMap_map, contigLine, chromLine]
+
 /-- `headerText` ends with a newline, so its lines are exactly its `\n`-terminated lines and whatever follows starts a new line. -/
 theorem parseVcfHeaderLines_headerText (cols contigs : List String) (hc : cols ≠ []) (hcw : ∀ c ∈ cols, WfName c)
     (hg : ∀ c ∈ contigs, WfContig c) (rest : List (List Nat)) :
